@@ -120,6 +120,7 @@ type Machine struct {
 	steps       int64
 	stepLimit   int64
 	depth       int
+	maxDepth    int
 	violations  []Violation
 	cfg         *JobCfg
 	stats       *Stats
